@@ -483,3 +483,26 @@ M("C11", "M11-5-no-dropped-results", dict(
     checks=[("never", "dropped_result")], unroll=1),
   title="on the writer / updater / store / directory / reader paths no `Result` is dropped without being matched or propagated, except the documented sinks (GC after commit / merge, closed channels, Drop)",
   functions=[], bounds="unroll 1, per function")
+
+# ---------------------------------------------------------------------------------------------
+# MmapDirectory's flock-based locks are exclusive on both the blocking (META_LOCK: reader vs GC)
+# and the non-blocking (writer lock) branch; the guard is only built after the lock was obtained.
+# ---------------------------------------------------------------------------------------------
+EV_MMAP_LOCK = {
+    "open": {"call": r"OpenOptions::open"},
+    "excl": {"call": r"FileExt>::lock_exclusive$"},
+    "try_excl": {"call": r"FileExt>::try_lock_exclusive$"},
+    "shared": {"call": r"FileExt>::(try_)?lock_shared$"},
+    "guard": {"call": r"DirectoryLock as std::convert::From<.*ReleaseLockFile>>>::from$"},
+    "ret": {"ret": True},
+}
+for _p, _oid in (("C05", "M05-5-mmap-meta-lock-exclusive"), ("C10", "M10-8-mmap-meta-lock-exclusive"), ("C18", "M18-4-mmap-writer-lock-exclusive")):
+    M(_p, _oid, dict(
+        root=r"^directory::mmap_directory::" + I + r"::acquire_lock$", depth=1, unroll=2, inline=[], auto_inline=False,
+        absent_ok_events=["shared"],
+        events=EV_MMAP_LOCK,
+        checks=[("never", "shared"), ("reach", "excl"), ("reach", "try_excl"),
+                ("not_after_fail", "excl", "guard"), ("not_after_fail", "try_excl", "guard"),
+                ("err_propagates", "open"), ("err_propagates", "excl")]),
+      title="MmapDirectory::acquire_lock takes an exclusive flock on both branches (blocking: META_LOCK shared by reader loads and GC; non-blocking: the writer lock) and builds the guard only after the lock call succeeded",
+      functions=["<MmapDirectory as Directory>::acquire_lock"], bounds="")
